@@ -242,11 +242,11 @@ func Drive[C any](t *testing.T, r Runner[C]) {
 		sort.Strings(files)
 		for _, f := range files {
 			rf, c, err := loadReplay[C](f)
+			if rf != nil && rf.Check != "" && rf.Check != t.Name() {
+				continue // another unit's case type
+			}
 			if err != nil {
 				t.Fatalf("INFRA cannot load regression case %s: %v", f, err)
-			}
-			if rf.Check != "" && rf.Check != t.Name() {
-				continue
 			}
 			rr := RegressResult{File: f, Runs: r.ReplayRuns}
 			for i := 0; i < r.ReplayRuns; i++ {
@@ -348,7 +348,7 @@ func loadReplay[C any](path string) (*ReplayFile, C, error) {
 		return nil, c, err
 	}
 	if err := json.Unmarshal(rf.Case, &c); err != nil {
-		return nil, c, err
+		return &rf, c, err
 	}
 	return &rf, c, nil
 }
